@@ -383,7 +383,7 @@ def showOut (T : Tables) (c : Cfg) : String :=
 def render (T : Tables) (fs : FileSys) (toks : List String) : String :=
   match parseArgs T fs toks with
   | .error .exit => "ERR"
-  | .error (.raise ty) => "EXC:" ++ ty
+  | .error (.raise ty) => if ty == "Hang" then "HANG" else "EXC:" ++ ty
   | .ok c =>
     match finish T fs c with
     | .error .exit => "ERR"
